@@ -96,34 +96,44 @@ def restore(dst, src, via):
         dst.set_extra_state(dict(src.get_extra_state()))
 
 
-def apply(rt, op, shape, odt=torch.float64, tdt=torch.float64):
-    """odt: data type of the observations pushed / inserted (the first push into None storage creates
-    storage of that type); tdt: data type of the time tensors (the times of a float32 case are float32
-    values already, so the cast is exact); scalar times are python floats"""
+RDT = {v: k for k, v in SDT.items()}
+
+
+def keep(kwargs, omit):
+    """leave the omitted optional keywords out of the call altogether (the library's defaults apply)"""
+    return {k: v for k, v in kwargs.items() if k not in omit}
+
+
+def apply(rt, op, shape, sdt=torch.float64, tdt=torch.float64, omit=(), odt=None):
+    """sdt: data type of the observations pushed (the first push into None storage creates storage of that
+    type); odt: data type of the observation of this insert (default: the storage type); tdt: data type of the
+    time tensors (the times of a float32 case are float32 values already, so the cast is exact); scalar times
+    are python floats; omit: names of optional arguments NOT passed in this call"""
     k = op[0]
     aux = None
+    odt = sdt if odt is None else odt
     if k == "fill":
         for row in op[1]:
-            rt.push(torch.tensor(row, dtype=torch.float64).reshape(shape).to(odt), inplace=True)
-        assert rt.value.dtype == odt, (rt.value.dtype, odt)
+            rt.push(torch.tensor(row, dtype=torch.float64).reshape(shape).to(sdt), inplace=True)
         return [1], aux
     if k == "push":
-        rt.push(torch.tensor(op[1], dtype=torch.float64).reshape(shape).to(odt), inplace=True)
-        assert rt.value.dtype == odt, (rt.value.dtype, odt)
+        rt.push(torch.tensor(op[1], dtype=torch.float64).reshape(shape).to(sdt), inplace=True)
         return [1], aux
     if k == "incr":
         return [2, rt.incr(op[1])], aux
     if k == "selS":
         _, tol, off, t, ic, par = op
         fn, kw = interp_of(ic, par)
-        r = rt.select(t, fn, tolerance=tol, offset=off, interp_kwargs=kw)
+        ka = keep({"interp": fn, "tolerance": tol, "offset": off, "interp_kwargs": kw}, omit)
+        r = rt.select(t, **ka)
         return [3, list(r.shape), flat(r)], aux
     if k == "selT":
         _, tol, off, tshape, times, ic, par = op
         fn, kw = interp_of(ic, par)
         tt = torch.tensor(times, dtype=torch.float64).reshape(tshape).to(tdt)
         assert tt.double().reshape(-1).tolist() == [float(x) for x in times]
-        r = rt.select(tt, fn, tolerance=tol, offset=off, interp_kwargs=kw)
+        ka = keep({"interp": fn, "tolerance": tol, "offset": off, "interp_kwargs": kw}, omit)
+        r = rt.select(tt, **ka)
         # the same times through the scalar branch, element by element
         nel = 1
         for d in shape:
@@ -133,7 +143,7 @@ def apply(rt, op, shape, odt=torch.float64, tdt=torch.float64):
         for e in range(nel):
             row = []
             for j in range(per):
-                rs = rt.select(float(times[e * per + j]), fn, tolerance=tol, offset=off, interp_kwargs=kw)
+                rs = rt.select(float(times[e * per + j]), **ka)
                 row.append(fhex(float(rs.reshape(-1)[e].item())))
             aux.append(row)
         if len(tshape) == len(shape):
@@ -143,35 +153,39 @@ def apply(rt, op, shape, odt=torch.float64, tdt=torch.float64):
     if k == "insS":
         _, sh, els, tol, off, t, ec, par, inplace = op
         fn, kw = extrap_of(ec, par)
-        rt.insert(torch.tensor(els, dtype=torch.float64).reshape(sh).to(odt), t, fn, tolerance=tol, offset=off,
-                  inplace=inplace, extrap_kwargs=kw)
+        ka = keep({"extrap": fn, "tolerance": tol, "offset": off, "inplace": inplace, "extrap_kwargs": kw}, omit)
+        rt.insert(torch.tensor(els, dtype=torch.float64).reshape(sh).to(odt), t, **ka)
         return [1], aux
     if k == "insT":
         _, sh, els, tol, off, tsh, times, ec, par, inplace = op
         fn, kw = extrap_of(ec, par)
+        ka = keep({"extrap": fn, "tolerance": tol, "offset": off, "inplace": inplace, "extrap_kwargs": kw}, omit)
         rt.insert(torch.tensor(els, dtype=torch.float64).reshape(sh).to(odt),
-                  torch.tensor(times, dtype=torch.float64).reshape(tsh).to(tdt), fn, tolerance=tol, offset=off,
-                  inplace=inplace, extrap_kwargs=kw)
+                  torch.tensor(times, dtype=torch.float64).reshape(tsh).to(tdt), **ka)
         return [1], aux
     raise AssertionError(k)
 
 
-def step(rt, op, case):
+def step(rt, op, case, i):
+    """one trace entry: [output or error, snapshot, aux, storage data type (None while there is no storage)]"""
     aux = None
     try:
-        o, aux = apply(rt, op, case["shape"], SDT[case.get("dtype", "f64")], SDT[case.get("tdtype", "f64")])
+        od = case.get("odt", {}).get(str(i))
+        o, aux = apply(rt, op, case["shape"], SDT[case.get("dtype", "f64")], SDT[case.get("tdtype", "f64")],
+                       tuple(case.get("omit", {}).get(str(i), ())), None if od is None else SDT[od])
         out = [0, o]
     except Exception as e:  # noqa
         c = exc_code(e)
         out = [1, c] if c != 9 else [1, 9, f"{type(e).__name__}: {e}"[:200]]
-    return [out, snapshot(rt), aux]
+    v = rt.value
+    return [out, snapshot(rt), aux, None if v is None else RDT.get(v.dtype, str(v.dtype))]
 
 
 def run_case(case):
     r = case.get("restore")
     if r is None:
         rt = build(case)
-        return [step(rt, op, case) for op in case["ops"]]
+        return [step(rt, op, case, i) for i, op in enumerate(case["ops"])]
     # the record under test is built with ANOTHER step time (same number of slots) and receives the
     # case's step time from a second record; operations before the restore run on that second record
     n, shape = case["N"], case["shape"]
@@ -182,7 +196,7 @@ def run_case(case):
         if i == r["at"]:
             restore(dst, src, r["via"])
         rt = (dst if i >= r["at"] else src).rec
-        tr.append(step(rt, op, case) + [fhex(rt.dt), rt.recordsz])
+        tr.append(step(rt, op, case, i) + [fhex(rt.dt), rt.recordsz])
     return tr
 
 
